@@ -116,13 +116,18 @@ their meaning follows `Sem`; all of it was validated against the REAL implementa
   a block.  `stage` inside a routine body, `get`, `wait`, definitions inside a block were already
   as the parser has them (`Model/ParseTok.lean`, which mirrors the parser, is the reference;
   `harness/c01.py` compares `Gen` with it on every generated script: stream `gen-vs-parsetok`);
-* `Vm.State.doColor` for the `COLOR` at the `END` of a block: the matrix goes to the light the NAME
-  register THEN holds — a command inside the block changes it — with the cells of the matrix the
-  block was opened on; if that light is a matrix light and the block was opened on a light without
-  a matrix the machine aborts (`_as_raw_matrix(None)`): a defect of the real code
-  (`known_findings.json`: C06-matrix-block-name) that the model mirrors, found by the generator
-  feature `matrix_rich`; `C15_matrix_once` now says "the matrix register holds the matrix of this
-  light" (`m.height = h`, `m.width = w`);
+* THE RESULT OF A MATRIX BLOCK GOES TO THE LIGHT NAMED IN THE `set`, whatever commands inside the
+  block did to the NAME register: the generator feature `matrix_rich` found that the real machine
+  sent it to the light NAME held at `END` (another light, none, or an AttributeError abort); the
+  real parser was repaired (repository commit 9355d2b: the instruction that loads NAME is emitted
+  again after `END matrix` of a `begin … end` block, not of the one-line form;
+  `_color_matrix_light` skips when there is no matrix).  `Gen.genOperand (.matrixBlock n body)` has
+  `genName n` again after `.endMatrix`, `Sem.execOperand` loads the name again after the body,
+  `Model/ParseTok.lean` emits the instruction again, `Vm.State.doColor` sends nothing when there is
+  no matrix.  `C15_inline_is_single_stage` says exactly this difference between the two forms.
+  `C15_matrix_once` keeps the hypotheses `m.height = h`, `m.width = w`: a routine called inside a
+  block may open a block of its own on another matrix light, after which the outer block's light
+  is sent the cells of that matrix (real machine and model alike);
 * `Sem.collect` also collects the routine definitions inside the bodies of MATRIX BLOCKS (the
   loader extracts them like any other, and the real implementation runs
   `set "m" begin define f begin print 7 end stage row 0 end  f`; `Sem` said "unknown routine f");
@@ -805,7 +810,7 @@ def c01Code2 : List Instr :=
   Instr.color,
   Instr.loop,
   Instr.moveq (Val.bool true) (Dst.reg (Reg.result)),
-  Instr.jump (JumpCond.ifFalse) 21,
+  Instr.jump (JumpCond.ifFalse) 22,
   Instr.wait,
   Instr.moveq (Val.str "m") (Dst.reg (Reg.name)),
   Instr.matrix,
@@ -818,14 +823,15 @@ def c01Code2 : List Instr :=
   Instr.color,
   Instr.move (Src.reg (Reg.hue)) (Dst.reg (Reg.result)),
   Instr.jump (JumpCond.ifFalse) 2,
-  Instr.jump (JumpCond.always) 8,
+  Instr.jump (JumpCond.always) 9,
   Instr.endMatrix,
+  Instr.moveq (Val.str "m") (Dst.reg (Reg.name)),
   Instr.moveq (Val.operand (Operand.matrixLight)) (Dst.reg (Reg.operand)),
   Instr.color,
   Instr.moveq (Val.str "not reached") (Dst.reg (Reg.result)),
   Instr.out (IoOp.register) (Src.reg (Reg.result)),
   Instr.out (IoOp.print) (Src.lit (Val.none)),
-  Instr.jump (JumpCond.always) (-21),
+  Instr.jump (JumpCond.always) (-22),
   Instr.endLoop,
   Instr.wait,
   Instr.moveq (Val.operand (Operand.default)) (Dst.reg (Reg.operand)),
@@ -1611,7 +1617,8 @@ def matCode : List Instr := [
   .moveq (.int 7) (.reg .result), .out .register (.reg .result), .out .print (.lit .none), .end_ "f",
   .moveq (.operand .matrix) (.reg .operand), .moveq (.int 0) (.reg .firstRow),
   .moveq .none (.reg .lastRow), .moveq .none (.reg .firstColumn), .moveq .none (.reg .lastColumn),
-  .color, .endMatrix, .moveq (.operand .matrixLight) (.reg .operand), .color, .ctx, .jsr "f", .endCtx,
+  .color, .endMatrix, .moveq (.str "m") (.reg .name), .moveq (.operand .matrixLight) (.reg .operand),
+  .color, .ctx, .jsr "f", .endCtx,
   .moveq (.int 3) (.reg .result), .out .register (.reg .result), .out .print (.lit .none)]
 
 theorem matScript_def : DefBlock (fun _ => False) matScript := by
@@ -1655,9 +1662,9 @@ print 3
 ```
 The script as the driver's reader delivers it: `Block.lexical false` clears the `w` flag of the
 three commands inside the block.  One pause (for the block as a whole), then the commands to `a`
-at once.  (The `NAME` register is `a` at `END`, so the block's matrix goes to `a`, which is no
-matrix light: the real machine does the same — a defect of the real code, see
-`known_findings.json`, C06-matrix-block-name.) -/
+at once; the block's matrix goes to `m`, the light named in the `set`: the code loads `NAME` again
+after `END matrix` (the commands inside loaded `a`).  Before the repair of the real parser
+(`known_findings.json`, fixed: C06, matrix block name) it went to `a`, i.e. nowhere. -/
 
 def inMatSrc : Block := Block.ofList [
   .setReg .time (.lit (.int 2)), .setReg .hue (.lit (.int 10)),
@@ -1686,7 +1693,8 @@ def inMatCode : List Instr := [
   .moveq (.int 0) (.reg .firstRow), .moveq .none (.reg .lastRow), .moveq .none (.reg .firstColumn),
   .moveq .none (.reg .lastColumn), .color, .moveq (.operand .default) (.reg .operand), .color,
   .moveq (.str "a") (.reg .name), .moveq (.operand .light) (.reg .operand), .color, .endMatrix,
-  .moveq (.operand .matrixLight) (.reg .operand), .color, .moveq (.int 3) (.reg .result),
+  .moveq (.str "m") (.reg .name), .moveq (.operand .matrixLight) (.reg .operand), .color,
+  .moveq (.int 3) (.reg .result),
   .out .register (.reg .result), .out .print (.lit .none)]
 
 theorem inMatScript_frag : FragBlock (fun _ => False) inMatScript := by
@@ -1712,7 +1720,8 @@ example : ∃ k, (run (Loader.load inMatCode) k (Vm.init c01Lights2)).status = .
 
 example : (Sem.run 200 inMatScript c01Lights2).2.vm.trace.reverse =
     [.pause (.int 2), .setPower "a" 65535 0, .setColor "a" [1820, 0, 0, 0] 0,
-     .warn "not a matrix light", .out (.int 3)] := by decide +kernel
+     .setTile "m" [[1820, 0, 0, 0], [1820, 0, 0, 0], [1820, 0, 0, 0], [1820, 0, 0, 0]] 0 2 2,
+     .out (.int 3)] := by decide +kernel
 
 /-! ### why the fragment excludes reading `result` and `setReg unitMode`: on these scripts the
 source semantics and the machine (both of the MODEL) disagree
